@@ -128,7 +128,7 @@ def k_pdu(ctx, kind, cfg, p, model_fed=False, via="ctor", seed=0):
     ctx.check("pdu.roundtrip", u.packet_len == len(want), "packet_len", feat, case, observed=u.packet_len, expected=len(want))
     ok, rp = attempt(u.pack)
     ctx.check("pdu.roundtrip", ok and bytes(rp) == want, "repack", feat, case, observed=bytes(rp)[:96] if ok else repr(rp))
-    ISO.remember(u, want, kind)
+    ISO.remember(u, want, kind, view=lambda u=u: (C.get_params(kind, u), C.hdr_fields(u.pdu_header), u.packet_len))
     ISO.recheck(ctx, "pdu.decoded_objects_independent", case)
 
 
